@@ -236,6 +236,31 @@ macro_rules! adapter {
             pub fn uuid(text: &[u8]) -> String {
                 pg::ProguardMapping::new(text).uuid().to_string()
             }
+            /// UUID of a sub-mapping, optionally after the parent's UUID was computed, and of a clone.
+            pub fn uuid_section(text: &[u8], start: usize, end: usize, warm_parent: bool) -> (String, String) {
+                let m = pg::ProguardMapping::new(text);
+                if warm_parent {
+                    let _ = m.uuid();
+                }
+                let s = m.section(start..end);
+                let c = s.clone();
+                (s.uuid().to_string(), c.uuid().to_string())
+            }
+            /// Metadata answers asked twice and in a different order on one value.
+            pub fn metadata_twice(text: &[u8]) -> ((bool, bool, NSummary), (bool, bool, NSummary)) {
+                let m = pg::ProguardMapping::new(text);
+                let conv = |s: pg::MappingSummary<'_>| NSummary {
+                    compiler: s.compiler().map(|x| x.to_string()),
+                    compiler_version: s.compiler_version().map(|x| x.to_string()),
+                    min_api: s.min_api(),
+                    class_count: s.class_count(),
+                    method_count: s.method_count(),
+                };
+                let a = (m.has_line_info(), m.is_valid(), conv(m.summary()));
+                let s2 = conv(m.summary());
+                let b = (m.clone().has_line_info(), m.is_valid(), s2);
+                (a, b)
+            }
 
             fn mk_frame<'a>(
                 class: &'a str,
